@@ -48,7 +48,7 @@ func Division(left, right value.Value) error {
 				lv.Value = math.MinInt64
 				lv.IsNegativeInf = true
 			} else {
-				lv.Value /= int64(rv.Value)
+				lv.Value = int64(float64(lv.Value) / rv.Value)
 			}
 		default:
 			return errors.WithStack(fmt.Errorf("invalid division INTEGER type, got %s", right.Type()))
